@@ -151,7 +151,7 @@ var allScanInvariants = []string{"WellFormedInput", "NeverPanic", "C01_Census", 
 	"C02_Maxima", "C03_Depth", "C03_MemoIsChain", "C04_TreeMemoIsExpansion", "C04_MaxPerDimension",
 	"C05_Saturated", "C05_LinearSteps", "C09_NothingPending", "C09_PendingAccounting",
 	"C09_FunctionOfGraph", "RefCount", "C08_WitnessAttains", "C08_NoneCitesNothing",
-	"C08_SeekersPositive", "C08_DescriptionResolves"}
+	"C08_SeekersPositive", "C08_DescriptionResolves", "C18_IncsEqualCensus"}
 
 // Behaviour is one complete behaviour exported by TLC (ScanMC!ExportRec).
 type Behaviour struct {
